@@ -64,8 +64,11 @@ type vfWorldCfg struct {
 	LongKeys bool `json:"long_keys,omitempty"`
 	// what the provider advertises as code_challenge_methods_supported (nil: nothing)
 	ChallengeMethods []string `json:"challenge_methods,omitempty"`
+	TxnRedirect bool `json:"txn_redirect,omitempty"` // the token endpoint answers through redirects carrying a transaction cookie
 	// the foreign deployment uses the key the plugin falls back to when none is configured (it is in the source: public)
 	ForeignDefaultKey bool `json:"foreign_default_key,omitempty"`
+	// the browser also holds cookies of OTHER applications on the same host whose names merely contain the middleware's
+	ForeignCookies bool `json:"foreign_cookies,omitempty"`
 }
 
 const (
@@ -128,6 +131,9 @@ type vfWorld struct {
 	incoming  []string // return URIs seen in main cookies
 	ownCodecs map[string][]securecookie.Codec
 	cfgObjs   map[string]*Config
+	listJoins map[string][]string // header text of a list claim -> the claim's values
+	issuedVals map[string][]string // "state" / "nonce" -> values seen in login redirects of this world
+	planted   []string       // markers inside hand-written cookies with look-alike names (tamper "plant")
 	origin    map[string]int // cookie value -> who produced it: 1 the deployment (any instance with its key), 2 the foreign deployment
 	decodeFallback bool // cookies are read through the deployment's own codec (see codecsFor)
 }
@@ -186,6 +192,7 @@ func vfNewWorld(tb testingTB, cfg vfWorldCfg, nbrowsers int, r *vfRand) *vfWorld
 	w.prov = vfNewProvider(vfClientID, cfg.EndSession, r.fork(77))
 	w.prov.revocation = cfg.Revocation
 	w.prov.challengeMethods = cfg.ChallengeMethods
+	w.prov.txnRedirect = cfg.TxnRedirect
 	w.base = time.Now().Truncate(time.Second)
 	w.baseUnix = w.base.Unix()
 	for i := 0; i < nbrowsers; i++ {
@@ -713,6 +720,26 @@ func (w *vfWorld) noteMinted() {
 			w.tokens[m.Token] = m
 			w.tokOrder = append(w.tokOrder, m.Token)
 			w.noteText(m.Token)
+			// the list headers carry a claim's values joined with ",": a value that itself contains a comma cannot be told
+			// from two values by splitting, so the joins of the claims actually issued are remembered
+			for _, claim := range []interface{}{m.Spec.Groups, m.Spec.Roles} {
+				if arr, ok := claim.([]interface{}); ok && len(arr) > 0 {
+					strs := make([]string, 0, len(arr))
+					for _, x := range arr {
+						if sx, ok := x.(string); ok {
+							strs = append(strs, sx)
+						}
+					}
+					if len(strs) == len(arr) {
+						if w.listJoins == nil {
+							w.listJoins = map[string][]string{}
+						}
+						if _, seen := w.listJoins[strings.Join(strs, ",")]; !seen {
+							w.listJoins[strings.Join(strs, ",")] = strs
+						}
+					}
+				}
+			}
 		}
 	}
 }
@@ -897,6 +924,11 @@ func (w *vfWorld) do(rq vfReq) *vfObserved {
 	}
 	for _, c := range rq.ClientIDs {
 		req.Header.Set(w.headerName(c), vfMarker(c))
+	}
+	if w.cfg.ForeignCookies {
+		for _, n := range []string{"shop_oidc_raczylo_a_0", "shop_oidc_raczylo_a_1", "my_oidc_raczylo_m", "x_oidc_raczylo_r_0", "_oidc_raczylo", "oidc_raczylo_a", "_OIDC_RACZYLO_A_0"} {
+			req.AddCookie(&http.Cookie{Name: n, Value: "foreign-application-data"})
+		}
 	}
 	jarSent := map[string]string{}
 	if !rq.NoCookies {
@@ -1192,6 +1224,9 @@ func vfSplitRedirectURI(ru string) (scheme, host string, ok bool) {
 func (w *vfWorld) hvalTerm(code int, v string) string {
 	if code == 4 || code == 5 {
 		parts := strings.Split(v, ",")
+		if known, ok := w.listJoins[v]; ok {
+			parts = known
+		}
 		ids := make([]string, len(parts))
 		for i, p := range parts {
 			ids[i] = fmt.Sprintf("%d", w.in.id(p))
@@ -1397,12 +1432,16 @@ func (w *vfWorld) cookieLineBad(line string) bool {
 }
 
 // secrets the deployment put into cookies of this world so far
-func (w *vfWorld) secrets(o *vfObserved) [][]byte {
+func (w *vfWorld) secrets(req *http.Request, o *vfObserved) [][]byte {
 	var out [][]byte
 	add := func(s string) {
 		if len(s) >= 8 {
 			out = append(out, []byte(s))
 		}
+	}
+	// where the user was going is session content too (it comes back after the login)
+	if req != nil && len(req.URL.RequestURI()) >= 24 {
+		add(req.URL.RequestURI())
 	}
 	for _, t := range w.textOwner {
 		add(t)
@@ -1419,7 +1458,7 @@ func (w *vfWorld) secrets(o *vfObserved) [][]byte {
 	for _, c := range o.Cookies {
 		if cn, ok := vfCname(c.Name); ok && cn == "CMain" {
 			if _, _, vals, ok := w.decodeCookie(c.Name, c.Value); ok {
-				for _, k := range []string{"csrf", "nonce", "code_verifier", "email"} {
+				for _, k := range []string{"csrf", "nonce", "code_verifier", "email", "incoming_path"} {
 					if s, ok := vals[k].(string); ok {
 						add(s)
 					}
@@ -1432,7 +1471,13 @@ func (w *vfWorld) secrets(o *vfObserved) [][]byte {
 
 // vfKeylessViews: what a party WITHOUT the key can derive from a cookie value by decoding alone
 func vfKeylessViews(value string) [][]byte {
-	var views [][]byte
+	views := [][]byte{[]byte(value)}
+	if u, err := url.QueryUnescape(value); err == nil && u != value {
+		views = append(views, []byte(u))
+	}
+	if std, err := base64.StdEncoding.DecodeString(value); err == nil {
+		views = append(views, std)
+	}
 	outer, err := base64.URLEncoding.DecodeString(value)
 	if err != nil {
 		return views
@@ -1484,7 +1529,7 @@ func (w *vfWorld) flagsTerm(req *http.Request, jar map[string]string, o *vfObser
 		}
 	}
 	if len(o.Cookies) > 0 {
-		secrets := w.secrets(o)
+		secrets := w.secrets(req, o)
 		for _, c := range o.Cookies {
 			for _, view := range vfKeylessViews(c.Value) {
 				for _, s := range secrets {
@@ -1501,8 +1546,69 @@ func (w *vfWorld) flagsTerm(req *http.Request, jar map[string]string, o *vfObser
 	if in != nil && w.readBackDiffers(in, jar) {
 		flags[6] = true
 	}
+	// flag 7: the state or nonce of this login redirect is nearly the same text as one issued before in this world
+	// (at least half of the positions identical): values with that much structure in common are predictable
+	if o.Status == 302 && strings.Contains(o.Location, "/authorize?") {
+		if u, err := url.Parse(o.Location); err == nil {
+			for _, k := range []string{"state", "nonce"} {
+				v := u.Query().Get(k)
+				if v == "" {
+					continue
+				}
+				for _, old := range w.issuedVals[k] {
+					if len(old) == len(v) && old != v {
+						same := 0
+						for i := 0; i < len(v); i++ {
+							if v[i] == old[i] {
+								same++
+							}
+						}
+						if 2*same >= len(v) {
+							flags[7] = true
+						}
+					}
+				}
+				if w.issuedVals == nil {
+					w.issuedVals = map[string][]string{}
+				}
+				if len(w.issuedVals[k]) < 200 {
+					w.issuedVals[k] = append(w.issuedVals[k], v)
+				}
+			}
+		}
+	}
+	// flag 8: a marker that reached the deployment only inside a hand-written look-alike cookie surfaces in what it
+	// answers, forwards or stores: a cookie not produced under the key was taken as session content
+	for _, mk := range w.planted {
+		hit := strings.Contains(o.Location, mk) || strings.Contains(o.Body, mk)
+		if u, err := url.QueryUnescape(o.Location); err == nil && strings.Contains(u, mk) {
+			hit = true
+		}
+		for k, vs := range o.DownHdr {
+			if k == "Cookie" {
+				continue
+			}
+			for _, v := range vs {
+				if strings.Contains(v, mk) {
+					hit = true
+				}
+			}
+		}
+		for _, c := range o.Cookies {
+			if _, _, vals, ok := w.decodeCookie(c.Name, c.Value); ok {
+				for _, v := range vals {
+					if sv, ok := v.(string); ok && strings.Contains(sv, mk) {
+						hit = true
+					}
+				}
+			}
+		}
+		if hit {
+			flags[8] = true
+		}
+	}
 	var parts []string
-	for f := 1; f <= 6; f++ {
+	for f := 1; f <= 8; f++ {
 		if flags[f] {
 			parts = append(parts, strconv.Itoa(f))
 		}
